@@ -157,24 +157,26 @@ def corruption_test(run, prop, src_dir, corrupt_fn, n=8):
 # ---------------------------------------------------------------------------------------------
 FAM_STRIDE = {  # family: (quick stride, thorough stride); stride 1 = exhaustive
     "EP": (331, 6), "EPEDGE": (1, 1), "ONLYEP": (7, 1), "PIN": (53, 1), "CASTLE": (29, 1),
-    "PROMO": (2, 1), "MAT": (61, 2), "CHK": (1999, 37), "AMBIG": (997, 11), "RAW": (1, 1),
+    "PROMO": (2, 1), "MAT": (61, 2), "CHK": (1999, 37), "AMBIG": (997, 11), "RAW": (1, 1), "MINOR": (23, 1), "MULTICHK": (499, 3), "ROOKCAP": (1, 1), "EPCHK": (997, 9),
 }
 FAMS_FOR = {
     "C01": ["EP", "EPEDGE", "ONLYEP", "PIN", "CASTLE", "PROMO", "CHK"],
-    "C03": ["EP", "EPEDGE", "CASTLE", "PROMO", "MAT"],
+    "C03": ["EP", "EPEDGE", "CASTLE", "PROMO", "MAT", "ROOKCAP"],
     "C06": ["EP", "EPEDGE", "PIN", "CASTLE", "PROMO", "CHK"],
-    "C07": ["EP", "ONLYEP", "PIN", "MAT", "CHK", "CASTLE"],
-    "C16": ["PIN", "CHK", "CASTLE"],
-    "C04": ["EP", "CASTLE", "PROMO"],
-    "C05": ["EP", "CASTLE", "PROMO"],
-    "C09": ["AMBIG", "PIN", "PROMO", "EP", "CASTLE"],
+    "C07": ["EP", "ONLYEP", "PIN", "MAT", "MINOR", "CHK", "CASTLE"],
+    "C16": ["PIN", "CHK", "CASTLE", "MULTICHK", "EP"],
+    "C04": ["EP", "CASTLE", "PROMO", "ROOKCAP"],
+    "C05": ["EP", "CASTLE", "PROMO", "ROOKCAP"],
+    "C09": ["AMBIG", "PIN", "PROMO", "EP", "EPEDGE", "EPCHK", "CASTLE"],
     "C10": ["EP", "EPEDGE", "CASTLE", "PROMO"],
     "C11": ["RAW", "EPEDGE", "CASTLE"],
-    "C18": ["EP", "ONLYEP", "CASTLE", "MAT", "PIN"],
+    "C18": ["EP", "ONLYEP", "CASTLE", "MAT", "MINOR", "PIN"],
     "C19": ["CHK", "AMBIG"],
+    "C02": ["EP", "EPEDGE", "ONLYEP", "PROMO", "ROOKCAP", "CASTLE", "PIN"],
+    "C13": ["EP", "PROMO", "ROOKCAP", "CASTLE", "PIN"],
 }
 # families whose positions are expensive per event (SAN: ~150 texts, UCI: 20 481 strings): thinner samples
-FAM_MULT = {"C04": 5, "C05": 5, "C09": 6, "C10": 4, "C18": 2}
+FAM_MULT = {"C04": 5, "C05": 5, "C09": 6, "C10": 4, "C18": 2, "C02": 12, "C13": 12}
 
 
 def mc_notation(run, tier):
@@ -217,17 +219,23 @@ def mc_famimpl(run, tier, seed, fams):
 
 
 def enumerate_family(run, fam, stride, seed, workers):
-    env = {"FAM_" + fam: 1, "STRIDE": stride, "SEED": seed}
-    r = run_tlc("MC_Families", "MC_Families.cfg", env=env, workers=workers, xmx="4g", timeout=3000,
-                tag=f"fam-{run.prop}-{fam}")
-    if "Model checking completed. No error has been found" not in r["out"]:
-        run.tool_error(f"MC_Families({fam}) failed:\n" + r["out"][-2500:])
-        return []
+    """One TLC run of MC_Families for one family.  The sample is a deterministic function of (seed, stride);
+    should it come out empty for some seed, the stride is reduced until it is not (never a vacuous pass)."""
     pos = []
-    for m in re.finditer(r'^"POS (\w+) (.*)"\s*$', r["out"], re.M):
-        pos.append({"fam": m.group(1), "pos": json.loads(m.group(2).replace('\\"', '"'))})
-    run.states += r["distinct"]
-    run.transitions += max(r["generated"] - 1, 0)
+    for attempt in range(6):
+        env = {"FAM_" + fam: 1, "STRIDE": stride, "SEED": seed}
+        r = run_tlc("MC_Families", "MC_Families.cfg", env=env, workers=workers, xmx="4g", timeout=3000,
+                    tag=f"fam-{run.prop}-{fam}")
+        if "Model checking completed. No error has been found" not in r["out"]:
+            run.tool_error(f"MC_Families({fam}) failed:\n" + r["out"][-2500:])
+            return []
+        for m in re.finditer(r'^"POS (\w+) (.*)"\s*$', r["out"], re.M):
+            pos.append({"fam": m.group(1), "pos": json.loads(m.group(2).replace('\\"', '"'))})
+        run.states += r["distinct"]
+        run.transitions += max(r["generated"] - 1, 0)
+        if pos or stride == 1:
+            break
+        stride = max(1, stride // 4)
     return pos
 
 
@@ -690,10 +698,14 @@ CHAIN_MODELS = {  # model: (in quick?, probes that must be reachable)
 }
 
 
+CHAIN_MODELS_FOR = {"C13": ["knights1", "ep"], "C14": ["knights1", "clock"], "C17": ["castle", "clock"]}
+
+
 def mc_chain(run, tier):
     """Engine MC on the system spec: every interleaving of pushes (accepted and refused), pops, outcome
-    operations and walker steps within the bound; invariants = the listed properties at design level."""
-    models = [m for m, (q, _) in CHAIN_MODELS.items() if q or tier == "thorough"]
+    operations and walker steps within the bound; invariants = the listed properties at design level.
+    quick: two of the small models per property; thorough: all five."""
+    models = [m for m, (q, _) in CHAIN_MODELS.items() if tier == "thorough" or m in CHAIN_MODELS_FOR.get(run.prop, [])]
     info = {}
     t0 = time.time()
     for m in models:
@@ -776,6 +788,8 @@ def chain_behaviours(run, prop, tier, seed, binary):
     plan = [("free", 40, 14), ("knights1", 36, 4), ("castle", 14, 4), ("ep", 8, 6), ("clock", 10, 4)]
     if tier == "thorough":
         plan = [(m, d, n * 40) for m, d, n in plan]
+    elif prop != "C13":
+        plan = [("free", 40, 5), ("knights1", 36, 2), ("clock", 10, 2)]
     t0 = time.time()
     def sim(args):
         m, depth, num = args
